@@ -222,6 +222,7 @@ impl<'a> P<'a> {
                 " # ünï ☃ code",
                 " ## # ;",
                 " #",
+                " # cr inside\rthe comment 1 (",
             ];
             let c = pool[(h(self.lay.salt ^ 0x33, self.line as u64) % pool.len() as u64) as usize];
             self.out.push_str(c);
